@@ -91,6 +91,10 @@ def gen_case(rng, name, with_unknown):
       # "negative" is the documented marker of an unlabeled point, not only -1: several different negative values
       u = np.flatnonzero(y < 0)
       y[u] = rng.choice([-1, -2, -3, -9], size=len(u))
+  if name in ('ITML_Supervised', 'SDML_Supervised') and rng.random() < 0.2:
+    # a label vector is a label vector: all labeled points in ONE class (only similar pairs can be derived)
+    y = np.where(y >= 0, int(rng.integers(0, 5)), y)
+    ncls = 1
   seed = int(rng.integers(1000))
   hyper = dict(gen.FAST[name])
   hyper['random_state'] = seed
@@ -155,6 +159,12 @@ def gen_case(rng, name, with_unknown):
   with warnings.catch_warnings():
     warnings.simplefilter('ignore')
     try:
+      wq = None
+      if name == 'LSML_Supervised' and rng.random() < 0.5:
+        # per-constraint weights (a hyper-parameter of LSML_Supervised, a fit argument of LSML): one per derived quadruplet
+        c0 = Constraints(y).positive_negative_pairs(ev['n'], same_length=True, random_state=seed)
+        wq = np.round(rng.uniform(0.25, 4.0, size=len(c0[0])) * 8.0) / 8.0
+        hyper['weights'] = wq.copy()
       # (a) the supervised estimator, with the helper observed
       with Recorder(mod) as rec:
         ea = gen.CLS[name](**hyper)
@@ -171,6 +181,8 @@ def gen_case(rng, name, with_unknown):
         if kind == 'pairs':
           pairs, yl = wrap_pairs(X, cb)
           eb.fit(pairs, yl)
+        elif wq is not None:
+          eb.fit(X[np.column_stack(cb)], weights=wq.copy())
         else:
           eb.fit(X[np.column_stack(cb)])
       elif kind == 'chunks':
